@@ -22,6 +22,7 @@ from typing import Any, Dict, Iterable, List, Optional, Tuple, Union
 
 import json
 import logging
+import os
 import sys
 import sympy
 from sympy.core.expr import Expr as SympyExpr   # works for both sympy 1.4 and 1.8
@@ -53,6 +54,10 @@ if PLOT_DEPENDENCY_GRAPH:
     from .dependency_graph_plotter import DependencyGraphPlotter
 
 sympy.Basic.__str__ = lambda self: SympyPrinter().doprint(self)
+
+# verification hook (active only when the environment variable ODETOOLBOX_VERIF is set): trace of the
+# per-variable analytic/numeric verdict and of x, A, b, c, recorded before propagators are generated
+_verif_trace = []   # type: List[Dict]
 
 
 def _find_analytically_solvable_equations(shape_sys, shapes, parameters=None):
@@ -223,6 +228,12 @@ def _analysis(indict, disable_stiffness_check: bool = False, disable_analytic_so
 
     shape_sys = SystemOfShapes.from_shapes(shapes, parameters=parameters)
     _, node_is_analytically_solvable = _find_analytically_solvable_equations(shape_sys, shapes, parameters=parameters)
+    if os.environ.get("ODETOOLBOX_VERIF"):
+        _verif_trace.append({"x": [str(sym) for sym in shape_sys.x_],
+                             "A": [[str(shape_sys.A_[i, j]) for j in range(shape_sys.A_.shape[1])] for i in range(shape_sys.A_.shape[0])],
+                             "b": [str(el) for el in shape_sys.b_],
+                             "c": [str(el) for el in shape_sys.c_],
+                             "verdict": {str(sym): bool(v) for sym, v in node_is_analytically_solvable.items()}})
 
 
     #
